@@ -12,7 +12,7 @@ package gabi
 //@ pred presentD(p) := p.C != nil && p.A != nil && p.EResponse != nil && p.VResponse != nil
 //@ pred hiddenok(p, pk) := forall k in dom(p.AResponses) :: 0 <= k && k < len(pk.R) && p.AResponses[k] != nil
 //@ pred disclosedok(p, pk) := forall k in dom(p.ADisclosed) :: 1 <= k && k < len(pk.R) && p.ADisclosed[k] != nil && !in(p.AResponses, k)
-//@ pred structD(p, pk) := presentD(p) && hiddenok(p, pk) && disclosedok(p, pk)
+//@ pred structD(p, pk) := presentD(p) && hiddenok(p, pk) && disclosedok(p, pk) && in(p.AResponses, 0) && p.AResponses[0] != nil
 //@ pred sizesD(p, pk) := (forall k in dom(p.AResponses) :: 0 <= val(p.AResponses[k]) && val(p.AResponses[k]) <= pow2(pk.Params.LmCommit+1)-1) && 0 <= val(p.EResponse) && val(p.EResponse) <= pow2(pk.Params.LeCommit+1)-1
 
 //@ pred presentU(p) := p.U != nil && p.C != nil && p.VPrimeResponse != nil && p.SResponse != nil
@@ -181,7 +181,7 @@ package gabi
 
 //@ func (*ProofD).VerifyWithChallenge
 //@   property C01 C02 C03 C11 C08
-//@   premise secretresponse: result ==> p.AResponses[0] != nil
+//@   ensures secretresponse: result ==> p.AResponses[0] != nil
 //@   requires p != nil && wfpk(pk) && reconstructedChallenge != nil
 //@   assume revocation.Parameters.AttributeSize == 195 && revocation.Parameters.ChallengeLength == 256 && revocation.Parameters.ZkStat == 128
 //@   ensures accept: result ==> structD(p, pk) && sizesD(p, pk) && val(p.C) == val(reconstructedChallenge)
